@@ -183,6 +183,49 @@ class Scan(ast.NodeVisitor):
             self.record(node, self.classify_use(node), ast.unparse(node)[:70])
 
 
+def global_state_sites(tree, rel):
+    """module-level mutable containers that some function of the module mutates: state that survives from
+    one compilation to the next (a cache keyed too coarsely makes the output depend on history)."""
+    out = []
+    glob = {}
+    for n in tree.body:
+        tgt = val = None
+        if isinstance(n, ast.Assign) and len(n.targets) == 1 and isinstance(n.targets[0], ast.Name):
+            tgt, val = n.targets[0].id, n.value
+        elif isinstance(n, ast.AnnAssign) and isinstance(n.target, ast.Name) and n.value is not None:
+            tgt, val = n.target.id, n.value
+        if tgt is None:
+            continue
+        mutable = isinstance(val, (ast.Dict, ast.List, ast.Set, ast.DictComp, ast.ListComp, ast.SetComp)) or (
+            isinstance(val, ast.Call) and _name(val.func) in ("dict", "list", "set", "defaultdict", "OrderedDict", "Counter", "deque", "count"))
+        if mutable:
+            glob[tgt] = n.lineno
+    if not glob:
+        return out
+    for fn in ast.walk(tree):
+        if not isinstance(fn, (ast.FunctionDef, ast.AsyncFunctionDef)):
+            continue
+        local = {a.arg for a in fn.args.args + fn.args.kwonlyargs}
+        for n in ast.walk(fn):
+            name = None
+            if isinstance(n, (ast.Assign, ast.AugAssign, ast.AnnAssign)):
+                tgts = n.targets if isinstance(n, ast.Assign) else [n.target]
+                for t in tgts:
+                    if isinstance(t, ast.Subscript) and isinstance(t.value, ast.Name):
+                        name = t.value.id
+            elif isinstance(n, ast.Call) and isinstance(n.func, ast.Attribute) and isinstance(n.func.value, ast.Name) \
+                    and n.func.attr in ("append", "add", "update", "setdefault", "extend", "insert", "pop", "clear", "popitem", "remove", "__setitem__"):
+                name = n.func.value.id
+            elif isinstance(n, ast.Call) and _name(n.func) == "next" and n.args and isinstance(n.args[0], ast.Name):
+                name = n.args[0].id
+            elif isinstance(n, ast.Global):
+                for g in n.names:
+                    out.append((rel, n.lineno, "GlobalState", f"global {g} rebound in {fn.name}"))
+            if name in glob and name not in local:
+                out.append((rel, n.lineno, "GlobalState", f"module-level {name} (line {glob[name]}) mutated in {fn.name}"))
+    return out
+
+
 # sites the scanner cannot clear by itself, each with the reason it is harmless (file, start of text)
 ALLOW = {
     ("ffcx/codegeneration/common.py", "set((fname for"): "returned set is only compared with == in asserts",
@@ -209,6 +252,7 @@ def scan_repo():
                 if kind == "HashOrder" and any(rel == f and what.startswith(t) for f, t in ALLOW):
                     kind = "OrderFree"
                 out.append((rel, line, kind, what))
+            out.extend(sorted(set(global_state_sites(tree, rel))))
     return out
 
 
@@ -228,5 +272,5 @@ def generate():
 
 if __name__ == "__main__":
     for s in generate():
-        if s[2] in ("HashOrder", "HistoryId") or "-v" in sys.argv:
+        if s[2] in ("HashOrder", "HistoryId", "GlobalState") or "-v" in sys.argv:
             print(s)
